@@ -256,20 +256,27 @@ pub fn run(ctx: &Ctx) -> CheckResult {
             jobs.push((i, a));
         }
     }
-    let outs = par_run(ctx, &jobs, |_, (i, a)| {
-        let sp = &spaces[*i];
-        let mut out = JobOut::default();
-        seq_job(ctx, PROP, &sp.cfg, &sp.alphabet, *a, sp.depth, &mut out, |ops, last, out| {
-            let hist = since_reset(ops);
-            if hist.is_empty() {
-                return;
-            }
-            let r = reference(&sp.cfg, hist);
-            judge(&sp.cfg, ops, last, hist.len(), r.den_zero, r.cond, out);
+    // (spaces with periods beyond 2^32 after all the others: see refcmp::run_spaces)
+    let (jobs_huge, jobs): (Vec<(usize, usize)>, Vec<(usize, usize)>) = jobs.into_iter().partition(|(i, _)| spaces[*i].label == "huge period");
+    for part in [&jobs, &jobs_huge] {
+        if res.out.failed() {
+            break;
+        }
+        let outs = par_run(ctx, part, |_, (i, a)| {
+            let sp = &spaces[*i];
+            let mut out = JobOut::default();
+            seq_job(ctx, PROP, &sp.cfg, &sp.alphabet, *a, sp.depth, &mut out, |ops, last, out| {
+                let hist = since_reset(ops);
+                if hist.is_empty() {
+                    return;
+                }
+                let r = reference(&sp.cfg, hist);
+                judge(&sp.cfg, ops, last, hist.len(), r.den_zero, r.cond, out);
+            });
+            out
         });
-        out
-    });
-    res.absorb(merge_jobs(outs));
+        res.absorb(merge_jobs(outs));
+    }
     // the same histories (reduced depth) with the instance serialized + restored / replaced by its clone
     // right before the last operation
     if !res.out.failed() {
